@@ -110,6 +110,8 @@ def check(ctx):
         L = rnd.choice([0, 1, 2, 4, 8, 10, 24, 30, 64])
         mixed.append("cls %d %s" % (rnd.randrange(2), payload(rnd, L).hex() or "-"))
     fw.run_suite(ctx, exe, "S-cls/mixed", mixed, "frame classification")
+    ci = fw.corpus_inputs(ctx, random.Random(ctx.seed + 77))
+    fw.run_suite(ctx, exe, "S-cls/corpus", ["cls %d %s" % (rt, b.hex() or "-") for rt, b in ci], "frame classification (coverage-guided corpus + mutants)")
     fw.conclude(ctx, broken)
 
 
